@@ -84,3 +84,7 @@ package ios
 //vc:  set oneMinuteSeen = oneMinuteSeen || result1
 //vc:  ensures[C15] @oneMinuteRecognised !isnil(l) ==> result1 == regexp.MatchString("SHUTDOWN in 0?0:01:00", msg)
 //vc:  ensures[C15] oneMinuteSeen == (old(oneMinuteSeen) || result1)
+// banner offsets: leftmost match [l0,l1) is cut out, the message is group 1 [l2,l3)
+//vc:  ensures[C15] @bannerOffsets !isnil(l) ==> prefix == out[:l[0]] && postfix == out[l[1]:] && msg == out[l[2]:l[3]]
+//vc:  ensures[C15] @bannerCutOut !isnil(l) && strings.TrimSpace(prefix + postfix) != "" ==> result0 == prefix + postfix
+//vc:  ensures[C15] @noBannerNoChange (!old(s.reloadActive) ==> result0 == out && !result1) && (isnil(l) ==> result0 == out && !result1)
